@@ -14,7 +14,7 @@ PROPS = {
                 "category record/whole category, tracker registration, date, decode-only types) drained through a generated "
                 "script of read-buffer sizes and compared with the independent hlref encoder, then decoded back; "
                 "non-trivial = at least one variable-length part non-empty AND the drain needed more than one Read with data; "
-                "distinct = hash(kind, reference bytes, drain script)",
+                "distinct = hash(kind, reference bytes, drain script); a tenth of the transactions carry 255-1000 fields",
         "assumptions": ["hlref (written from the protocol document) is the wire-format oracle",
                         "TZ pinned to UTC for the date type",
                         "drain cost bounded: buffers >= len^2/2MiB (encoders rebuild their output per Read)"],
@@ -152,7 +152,7 @@ PROPS = {
                 "through the control connection, transfer through the production transfer loop; oracle = reference client: reply field 207 == "
                 "size-k, field 108 == header+size-k (no stored resource fork) or == size (preview), stream = strictly parsed FILP/INFO/DATA "
                 "header + exactly content[k:] + (resource fork | nothing | empty MACR header); non-trivial = size>0 and (k>0 or a fork is "
-                "stored or size>32 KiB); distinct = hash(name, content, mode, k, forks); in 3 of 5 cases the client's bytes on the transfer connection are cut into segments (random cuts, cuts inside the fixed-size headers, byte by byte)",
+                "stored or size>32 KiB); distinct = hash(name, content, mode, k, forks); in 3 of 5 cases the client's bytes on the transfer connection are cut into segments (random cuts, cuts inside the fixed-size headers, byte by byte); a quarter of the plain files are asked for through an alias (sizes and bytes are the target's)",
         "assumptions": ["the empty 16-byte MACR trailer mobius appends when no resource fork is stored is tolerated (DESIGN C08 interpretation note)",
                         "the encoding of the name inside the flattened-file header is not asserted (not part of the statement)"],
         "quick": {"runs": [{"test": "^TestC08$", "shards": 16, "checks": 400, "timeout": 600}]},
@@ -187,7 +187,7 @@ PROPS = {
                 "oracle upload: server answers == {next, send, resume:<partial size>} per item (computed from the disk state when the upload starts), "
                 "after a cut no file is under its final name with other bytes than the client's and partial data is a prefix, resulting tree == streamed tree, and downloading "
                 "the uploaded folder returns the same tree; non-trivial = tree has a nested folder and a file AND (a resume/skip action | "
-                "pre-seeded files | an earlier cut upload); distinct = hash(direction, tree, script/seed, cut); uploaded items are streamed with two forks or with a resource fork as third (0, 1 or 699 bytes), with PreserveResourceForks on or off: the items that follow must arrive either way (the download round trip is made when the server stored no forks)",
+                "pre-seeded files | an earlier cut upload); distinct = hash(direction, tree, script/seed, cut); uploaded items are streamed with two forks or with a resource fork as third (0, 1 or 699 bytes), with PreserveResourceForks on or off: the items that follow must arrive either way (the download round trip is made when the server stored no forks); a fifth of the item names hold a byte beyond ASCII (what is uploaded comes back under the same bytes)",
         "assumptions": ["PreserveResourceForks off, plain files without stored forks (the property's quantifier); stored-fork behaviour is only an observation in DESIGN.md"],
         "quick": {"runs": [{"test": "^TestC10Download$", "shards": 8, "checks": 250, "timeout": 600},
                            {"test": "^TestC10Upload$", "shards": 8, "checks": 250, "timeout": 600}]},
@@ -225,7 +225,7 @@ PROPS = {
                 "requested parent, prev == previously newest id, that article's next == new id, title/poster/body as posted; "
                 "operator-edit action: a top-level item is removed from the news file by hand and the file is reloaded into the running server, which must then hold what the file holds; stale-path action: list / get / post / delete / create requests whose path has a component that does not exist (inserted anywhere, or a missing parent followed by an existing name) must show nothing and leave the whole tree as it was; TestC18Burst: 2-8 users post 0..6000-byte articles (optionally replies) to one category at the same instant in 3-10 rounds, with a "
                 "concurrent delete of an older article; every accepted post present once under its own id with its content, older articles unchanged, "
-                "reload reproduces the category; non-trivial = >= 1 delete and >= 2 posts in the history (every step lists everything), every burst; distinct = hash(history)",
+                "reload reproduces the category; non-trivial = >= 1 delete and >= 2 posts in the history (every step lists everything), every burst; distinct = hash(history); delete-article requests carry the optional recursive flag (absent, 0 or 1): exactly the named article goes",
         "assumptions": ["creating over an existing name, replies to a missing parent and posts into a missing category are excluded (outside the statement / C03)",
                         "category / bundle names that hold a line break and start with a line break, tab or U+2028 are not in the name pool (known finding yaml-key-block-scalar, decided by TestC18KeyBlockScalar)"],
         "quick": {"runs": [{"test": "^TestC18$", "shards": 12, "checks": 60, "timeout": 600},
@@ -293,7 +293,7 @@ PROPS = {
                 "evaluated at the fake connection instant (exact, no margins); oracle: kicked connection closed after one second and every other "
                 "client told (302); a connection is refused (handshake reply + exactly one server message + close, login not processed, not in "
                 "the user list, nobody notified) iff the model says banned, otherwise it logs in; ban file reloaded by a fresh BanFile == model; "
-                "non-trivial = a reconnect from a banned address, a reconnect after expiry, or a restart with >= 1 ban; distinct = hash(history); TestC17Burst: 2-8 administrators disconnect-and-ban 2-8 different users at the same instant (1-3 rounds), every ban must be in the ban file and enforced at the door before and after a restart",
+                "non-trivial = a reconnect from a banned address, a reconnect after expiry, or a restart with >= 1 ban; distinct = hash(history); TestC17Burst: 2-8 administrators disconnect-and-ban 2-8 different users at the same instant (1-3 rounds), every ban must be in the ban file and enforced at the door before and after a restart; operator-unban action: an entry is removed from the ban file by hand and the file is reloaded, after which the address is admitted again",
         "assumptions": ["testing/synctest fake clock: time.Now() in mobius and in the model are the same instant"],
         "quick": {"runs": [{"test": "^TestC17$", "shards": 13, "checks": 100, "timeout": 600},
                            {"test": "^TestC17Burst$", "shards": 3, "checks": 40, "timeout": 600}]},
@@ -313,7 +313,7 @@ PROPS = {
                 "(list size == info size == download size == bytes on disk, list type == info type, comment), and the on-disk tree incl. "
                 ".info_/.rsrc_/.incomplete side files == model; TestC11Burst: 2-8 clients ask for the list, get-info or a download of different files "
                 "(distinct sizes 0..70000) at the same instant for 5-20 rounds, every answer must carry the size of the file it is about; "
-                "non-trivial = a mutating action on an entry that has side files followed by a view check, every burst; distinct = hash(history, ignore set); two of the ignore sets hold a pattern with an inline case-insensitivity flag (which must not spread to the other patterns) and a pattern that is not a regular expression (which matches nothing while the others still apply)",
+                "non-trivial = a mutating action on an entry that has side files followed by a view check, every burst; distinct = hash(history, ignore set); two of the ignore sets hold a pattern with an inline case-insensitivity flag (which must not spread to the other patterns) and a pattern that is not a regular expression (which matches nothing while the others still apply); rename-and-comment action: one set-file-info request carrying a comment and a new name",
         "assumptions": ["rename/move onto an existing name, rename/move of partial uploads and of aliases, set-comment on folders are excluded (outside the statement); counted in excluded_by_construction",
                         "a mutating request that changes the tree as requested but gets no reply (names whose side-file names exceed 255 bytes) is tolerated and counted"],
         "quick": {"runs": [{"test": "^TestC11$", "shards": 13, "checks": 80, "timeout": 600},
@@ -359,7 +359,7 @@ PROPS = {
                 "followed by the initial text; every get-messages reply is the complete board at some instant of its round (a suffix of the final "
                 "board starting at a post boundary, not older than posts acknowledged before); every post announced (102) exactly once to every "
                 "connected client; every 109 carries exactly the agreement; non-trivial = two reads overlap on a board > 512 bytes, or a read "
-                "overlaps a post, or simultaneous logins against an agreement > 512 bytes; distinct = hash(sizes, rounds, logins); in a quarter of the bubble cases a stale MessageBoard.txt.tmp (what a server that died between writing and renaming leaves behind) is present from the start; in a third of the bubble cases the operator edits the agreement file (LF line ends) and reloads it before the simultaneous logins, which must then be shown the new text with converted line ends",
+                "overlaps a post, or simultaneous logins against an agreement > 512 bytes; distinct = hash(sizes, rounds, logins); in a quarter of the bubble cases a stale MessageBoard.txt.tmp (what a server that died between writing and renaming leaves behind) is present from the start; in a third of the bubble cases the operator edits the agreement file (LF line ends) and reloads it before the simultaneous logins, which must then be shown the new text with converted line ends; the post format is the default, or the operator configured a date layout (NewsDateFormat), a template (NewsDelimiter), or both: the reference renders the configured format",
         "assumptions": ["goroutine schedules are sampled (bubble: Go scheduler inside the bubble; live: real scheduler)", "board text uses CR line ends (the store converts LF on load)"],
         "quick": {"runs": [{"test": "^TestC19$", "shards": 12, "checks": 60, "timeout": 900},
                            {"test": "^TestC19Live$", "shards": 2, "timeout": 600, "weight": 2}]},
@@ -413,7 +413,7 @@ PROPS = {
                 "sentinel answered and the user list must converge back to 1 entry (closed loop: a falling count is waited for, a count stuck "
                 "above 1 for 60 s is a leak), no 'fatal error' in its output; thorough adds a -race build where only race "
                 "reports with runtime map frames count. non-trivial = a hostile connection got past handshake and login (bubble) / sent more "
-                "than a handshake (net); distinct = hash(hostile descriptions) / hash(source, bytes)",
+                "than a handshake (net); distinct = hash(hostile descriptions) / hash(source, bytes); the requests that obtain a transfer reference number may lack (or shorten) the transfer-size / item-count fields",
         "assumptions": ["the hostile account lacks delete-user / modify-user (removing other users' accounts with valid requests is not a containment failure); it may send disconnect requests, the well-behaved account cannot be disconnected",
                         "declared fork sizes <= 1 MiB (the property's bound)", "goroutine schedules are sampled"],
         "quick": {"runs": [{"test": "^TestC03$", "shards": 15, "checks": 100, "timeout": 900},
